@@ -47,6 +47,8 @@ def program(prog, dim, kmode, vector_y):
         from mystic.monitors import Monitor
         if kmode == 'none':
             kA = kB = None
+        elif kmode == 'int':
+            kA, kB = 2, -1              # integer scaling factors (a python list times an int is repetition, not scaling)
         elif kmode == 'A':
             kA, kB = ctx.real('kA'), None
             ctx.assume(ne(kA, 0))
@@ -121,7 +123,7 @@ def instances(tier, seed):
                 continue
             progs.append(p)
     for p in progs:
-        variants = [(1, 'none', False), (2, 'AB', False)] if len(p) >= 3 else [(1, 'none', False), (2, 'A', False), (2, 'AB', False), (1, 'AB', True)]
+        variants = [(1, 'none', False), (2, 'AB', False)] if len(p) >= 3 else [(1, 'none', False), (2, 'A', False), (2, 'AB', False), (1, 'AB', True), (1, 'int', True), (1, 'int', False)]
         for dim, km, vy in variants:
             out.append(Instance('program/%s/dim=%d/k=%s/%s' % ('-'.join(p), dim, km, 'vecy' if vy else 'y'), program(p, dim, km, vy)))
     return out
